@@ -335,6 +335,8 @@ fn fixed_cases() -> Vec<(&'static str, String)> {
         ("fixed:escape-roblox", "print(\"\\x1\")\nprint(\"\\u{1234\")\nprint(\"\\u{110000}\")\nprint(\"\\x414\")\n".to_owned()),
         ("fixed:dup-quote-kinds", "local t = {[\"\\n\"]=1, [ [[\\n]] ]=2}\n".to_owned()),
         ("fixed:dup-canon", "local foo = {\n a = 1,\n b = 5,\n [\"a\"] = 3,\n c = 3,\n b = 1,\n}\nlocal bar = {\n \"foo\",\n \"bar\",\n [1524] = \"hello\",\n \"baz\",\n \"foobar\",\n [2] = \"goodbye\",\n}\n".to_owned()),
+        // keys of different types that are spelled alike: the boolean true and the string "true", nil-like and number-like strings
+        ("fixed:dup-other-key-types", "local t = { [true] = 1, [\"true\"] = 2, [false] = 3, [\"false\"] = 4, [\"nil\"] = 5, [\"1\"] = 6, [1] = 7, [\"...\"] = 8 }\nlocal u = { [true] = 1, [true] = 2, [false] = 3, [(false)] = 4 }\nlocal v = { [f] = 1, [\"f\"] = 2, f = 3, [f()] = 4, [\"f()\"] = 5 }\n".to_owned()),
         ("fixed:dup-by-value", "local t = {[1] = 1, [1.0] = 2, \"x\", [0x1] = 3}\n".to_owned()),
         ("fixed:distinct-in-double-precision", "local t = {[16777216] = 1, [16777217] = 2}\nlocal u = {[0.1] = 1, [0.10000000001] = 2, [1e39] = 3, [1e40] = 4}\nlocal ids = {[1234567890] = \"a\", [1234567891] = \"b\", [1234567892] = \"c\"}\n".to_owned()),
         ("fixed:div-zero-spellings", "print(0.0 / 0)\nprint(0x0 / 0)\nprint(1 / 0.0)\nprint(1 / 0)\nprint(-1 / 0)\nprint(0 / 0)\n".to_owned()),
